@@ -1,153 +1,36 @@
-import GrolProofs.PrintParse
+import GrolProofs.PrintParseBlocks
 /-
-C02, positive half: statements and programs — `parseProgram` on the rendering of a program of the
-fragment returns that program.
+C02, positive half: programs — `parseProgram` on the rendering of a program of the fragment returns that program.
 -/
 set_option linter.unusedVariables false
 set_option linter.unusedSimpArgs false
 namespace Grol.RT
 open Grol Grol.Wire Grol.Generated Grol.Parser Grol.Printer Grol.PrintTokens
-variable {s : TokStream}
-
-/-- an expression of the fragment, parsed to the end -/
-theorem expr_complete {n : Node} (hf : fragN n = true) (c ap ws : Bool) (q P i j : Nat) (hc : Compat P q)
-    (hseg : Seg s i (exprToks c ap q ws n)) (hj : j + 1 = i + (exprToks c ap q ws n).length)
-    (hstop : Stop q (s.get (j + 1))) (hstopP : Stop P (s.get (j + 1))) :
-    Ev (fun f => parseExpression s f P (stAt s i) = .ok (some n, stAt s j)) :=
-  gp_node s n hf c ap ws q P i j _ hc hseg hj hstop (ev_loop_stop hstopP)
-
-/-- the token after a statement: the end marker, or the first token of a statement that does not continue the previous one -/
-def FollowOK (y : Tok) : Prop :=
-  y = eofTok ∨ (startTy y.type = true ∧ y.hadWs = true ∧ ambiguousOp y.type = false)
-
-theorem followOK_stop {j : Nat} {y : Tok} (hy : FollowOK y) (h : key (s.get j) = key y) :
-    Stop prioLOWEST (s.get j) ∧ (s.get j).type ≠ .SEMICOLON := by
-  have hty := seg_type h
-  rcases hy with rfl | ⟨h1, h2, h3⟩
-  · have : (s.get j).type = .EOF := hty
-    exact ⟨Stop_of_type (by rw [this]; decide) (by rw [this]; decide) (by rw [this]; decide) (by rw [this]; decide), by rw [this]; decide⟩
-  · have hs := startTy_stop _ h1 h3
-    have hf := startTy_facts _ h1
-    rw [← hty] at hs hf h1
-    refine ⟨⟨hf.2.2.2.2.2.2.2, hs.1, hs.2.1, ?_⟩, hf.2.2.2.2.2.2.1⟩
-    rcases hs.2.2 with hp | hp | hp
-    · exact Or.inl hp
-    · exact Or.inr ⟨Or.inl hp, by rw [key_ws h (Or.inl (by rw [← hty]; exact hp))]; exact h2⟩
-    · exact Or.inr ⟨Or.inr hp, by rw [key_ws h (Or.inr (by rw [← hty]; exact hp))]; exact h2⟩
-
-theorem startsAmbiguous_head {ws : Bool} {l : List Tok} (h : Head ws l) (hna : startsAmbiguous l = false) :
-    ∃ x rest, l = x :: rest ∧ startTy x.type = true ∧ x.hadWs = ws ∧ ambiguousOp x.type = false := by
-  obtain ⟨x, rest, rfl, h1, h2⟩ := h
-  exact ⟨x, rest, rfl, h1, h2, by simpa [startsAmbiguous] using hna⟩
-
-/-- the first token of a statement that is not the first of its list -/
-theorem stmtToks_follow {n : Node} (hf : fragN n = true) (c ap : Bool)
-    (hna : c = true ∨ startsAmbiguous (stmtToks false ap false n) = false) :
-    ∃ y rest, stmtToks c ap false n = y :: rest ∧ FollowOK y := by
-  unfold stmtToks
-  simp only [Bool.not_false, Bool.and_true]
-  by_cases hc : (c && startsAmbiguous (exprToks c ap prioLOWEST true n)) = true
-  · rw [if_pos hc]
-    exact ⟨lparen true, _, rfl, Or.inr ⟨by decide, rfl, by decide⟩⟩
-  · rw [if_neg hc]
-    have hh := head_node n hf c ap prioLOWEST true
-    have : startsAmbiguous (exprToks c ap prioLOWEST true n) = false := by
-      cases c with
-      | true => simpa using hc
-      | false =>
-        rcases hna with h | h
-        · cases h
-        · simpa [stmtToks] using h
-    obtain ⟨x, rest, hx, h1, h2, h3⟩ := startsAmbiguous_head hh this
-    exact ⟨x, rest, hx, Or.inr ⟨h1, h2, h3⟩⟩
-
-/-- what follows a statement in the rendering of a statement list -/
-theorem prog_follow (c ap : Bool) : ∀ (more : NList), fragL more = true → (c = true ∨ noAmbiguousStart ap false more = true) →
-    ∃ y rest, progToksAux c ap false more ++ [eofTok] = y :: rest ∧ FollowOK y
-  | [], _, _ => ⟨eofTok, [], rfl, Or.inl rfl⟩
-  | none :: _, h, _ => by simp [fragL, fragO] at h
-  | some n :: more, h, hna => by
-    simp only [fragL, fragO, Bool.and_eq_true] at h
-    have hna' : c = true ∨ startsAmbiguous (stmtToks false ap false n) = false := by
-      rcases hna with h | h
-      · exact Or.inl h
-      · simp only [noAmbiguousStart, Bool.false_or, Bool.and_eq_true, Bool.not_eq_true'] at h
-        exact Or.inr h.1
-    obtain ⟨y, rest, hy, hok⟩ := stmtToks_follow h.1 c ap hna'
-    exact ⟨y, rest ++ (progToksAux c ap false more ++ [eofTok]), by simp only [progToksAux, hy, List.cons_append, List.append_assoc], hok⟩
-
-theorem stmtToks_head {n : Node} (hf : fragN n = true) (c ap first : Bool) :
-    ∃ x rest, stmtToks c ap first n = x :: rest ∧ startTy x.type = true := by
-  unfold stmtToks
-  split
-  · exact ⟨lparen true, _, rfl, by decide⟩
-  · obtain ⟨x, rest, hx, h1, _⟩ := head_node n hf c ap prioLOWEST (!first)
-    exact ⟨x, rest, hx, h1⟩
-
-/-- one expression statement -/
-theorem stmt_parse {n : Node} (hf : fragN n = true) (c ap first : Bool) (i j : Nat) (hseg : Seg s i (stmtToks c ap first n))
-    (hj : j + 1 = i + (stmtToks c ap first n).length) (hstop : Stop prioLOWEST (s.get (j + 1)))
-    (hsemi : (s.get (j + 1)).type ≠ .SEMICOLON) :
-    Ev (fun f => parseStatement s f (stAt s i) = .ok (some n, stAt s j)) := by
-  obtain ⟨x, rest, hx, hstart⟩ := stmtToks_head hf c ap first
-  have hcur : startTy (s.get i).type = true := by
-    rw [hx, Seg_cons] at hseg; rw [seg_type hseg.1]; exact hstart
-  have hE : Ev (fun f => parseExpression s f prioLOWEST (stAt s i) = .ok (some n, stAt s j)) := by
-    unfold stmtToks at hseg hj
-    by_cases hc : (c && !first && startsAmbiguous (exprToks c ap prioLOWEST (!first) n)) = true
-    · rw [if_pos hc] at hseg hj
-      simp only [List.cons_append, Seg_cons, Seg_append, Seg_nil, and_true, List.length_cons, List.length_append, List.length_nil] at hseg hj
-      obtain ⟨j', rfl⟩ : ∃ j', j = j' + 1 := ⟨j - 1, by omega⟩
-      have hcl : key (s.get (j' + 1)) = key rparen := by
-        have := hseg.2.2; rwa [show i + 1 + (exprToks c ap prioLOWEST false n).length = j' + 1 by omega] at this
-      refine grp (t := n) (i := i) (j := j') (fun res' => ?_) (by have := seg_type hseg.1; simpa [lparen, sym] using this)
-        (by have := seg_type hcl; simpa [rparen, sym] using this) hstop.1 (ev_loop_stop hstop)
-      exact gp_node s n hf c ap false prioLOWEST prioLOWEST (i + 1) j' res' (Compat_low (Nat.le_refl _)) hseg.2.1 (by omega)
-        (stop_rparen hcl (Nat.le_refl _))
-    · rw [if_neg hc] at hseg hj
-      exact expr_complete hf c ap (!first) prioLOWEST prioLOWEST i j (Compat_low (Nat.le_refl _)) hseg hj hstop hstop
-  refine Ev.step 0 1 (fun F _ ha f hf' => ?_) hE
-  exact parseStatement_ok (by simp only [stAt_cur]; exact (startTy_facts _ hcur).2.2.2.2.2.1) (ha f hf')
-    (by simp only [stAt_peek]; exact hsemi)
-
-theorem stmtToks_pos {n : Node} (hf : fragN n = true) (c ap first : Bool) : 1 ≤ (stmtToks c ap first n).length := by
-  obtain ⟨x, rest, hx, _⟩ := stmtToks_head hf c ap first
-  rw [hx]; simp
+variable {s : TokStream} {c ap : Bool}
 
 /-- the statement loop of `ParseProgram` on the rendering of a statement list -/
-theorem prog_loop (c ap : Bool) : ∀ (rest acc : NList) (first : Bool) (i : Nat), fragL rest = true →
-    (c = true ∨ noAmbiguousStart ap first rest = true) → Seg s i (progToksAux c ap first rest ++ [eofTok]) →
-    Ev (fun f => parseProgramLoop s f acc (stAt s i) = .ok (acc ++ rest, stAt s (i + (progToksAux c ap first rest).length)))
+theorem prog_loop : ∀ (l acc : NList) (first : Bool) (i : Nat), fragS c ap false first l = true → SPL s c ap l →
+    Seg s i (stmtsToks c ap false first l ++ [eofTok]) →
+    Ev (fun f => parseProgramLoop s f acc (stAt s i) = .ok (acc ++ l, stAt s (i + (stmtsToks c ap false first l).length)))
   | [], acc, first, i, _, _, hseg => by
-    simp only [progToksAux, List.nil_append, Seg_cons, Seg_nil, and_true, List.length_nil, Nat.add_zero, List.append_nil] at hseg ⊢
+    simp only [stmtsToks, List.nil_append, Seg_cons, Seg_nil, and_true, List.length_nil, Nat.add_zero, List.append_nil] at hseg ⊢
     have hty : (s.get i).type = .EOF := seg_type hseg
     refine ⟨1, fun f hf => ?_⟩
     obtain ⟨g, rfl⟩ : ∃ g, f = g + 1 := ⟨f - 1, by omega⟩
     exact parseProgramLoop_stop (by simpa using hty)
-  | none :: _, _, _, _, h, _, _ => by simp [fragL, fragO] at h
-  | some n :: more, acc, first, i, h, hna, hseg => by
-    simp only [fragL, fragO, Bool.and_eq_true] at h
-    simp only [progToksAux, List.append_assoc, List.length_append] at hseg ⊢
-    rw [Seg_append] at hseg
-    have hpos := stmtToks_pos h.1 c ap first
-    obtain ⟨j, hj⟩ : ∃ j, j + 1 = i + (stmtToks c ap first n).length := ⟨i + (stmtToks c ap first n).length - 1, by omega⟩
-    rw [← hj] at hseg
-    have hna' : c = true ∨ noAmbiguousStart ap false more = true := by
-      rcases hna with h | h
-      · exact Or.inl h
-      · simp only [noAmbiguousStart, Bool.and_eq_true] at h; exact Or.inr h.2
-    obtain ⟨y, rest', hy, hok⟩ := prog_follow c ap more h.2 hna'
-    have hfol : key (s.get (j + 1)) = key y := by have := hseg.2; rw [hy, Seg_cons] at this; exact this.1
-    have hst := followOK_stop hok hfol
-    have h1 := stmt_parse h.1 c ap first i j hseg.1 hj hst.1 hst.2
-    have h2 := prog_loop c ap more (acc ++ [some n]) false (j + 1) h.2 hna' hseg.2
-    obtain ⟨x, restx, hx, hstart⟩ := stmtToks_head h.1 c ap first
-    have hcur : startTy (s.get i).type = true := by
-      have := hseg.1; rw [hx, Seg_cons] at this; rw [seg_type this.1]; exact hstart
+  | none :: _, _, _, _, h, _, _ => by simp [fragS] at h
+  | some n :: rest, acc, first, i, h, hp, hseg => by
+    obtain ⟨n', hn', hpn⟩ := hp.head
+    cases hn'
+    obtain ⟨j, hj, h1, hseg', hstart⟩ := stmts_step (Or.inl rfl) h hpn hseg
+    have h' := h; rw [fragS_cons, Bool.and_eq_true] at h'
+    have h2 := prog_loop rest (acc ++ [some n]) false (j + 1) h'.2 hp.tail hseg'
+    have hsf := startTyS_facts _ hstart
     refine Ev.step2 0 1 (fun F _ ha hb f hf => ?_) h1 h2
-    rw [parseProgramLoop_step (st1 := stAt s j) (n := n) (by simp only [stAt_cur]; exact (startTy_facts _ hcur).2.2.2.1)
-      (by simp only [stAt_cur]; exact (startTy_facts _ hcur).2.2.2.2.1) (ha f hf), advance_stAt, hb f hf, List.append_assoc]
-    have : j + 1 + (progToksAux c ap false more).length = i + ((stmtToks c ap first n).length + (progToksAux c ap false more).length) := by omega
+    rw [parseProgramLoop_step (st1 := stAt s j) (n := n) (by simp only [stAt_cur]; exact hsf.2.1)
+      (by simp only [stAt_cur]; exact hsf.2.2.1) (ha f hf), advance_stAt, hb f hf,
+      List.append_assoc, stmtsToks_cons, List.length_append]
+    have : j + 1 + (stmtsToks c ap false false rest).length = i + ((stmtToks1 c ap false first n).length + (stmtsToks c ap false false rest).length) := by omega
     rw [this]; rfl
 
 /-! ### the stream -/
@@ -176,10 +59,9 @@ the end marker, `ParseProgram` returns that program, without errors, for every s
 theorem parse_rendered (c ap : Bool) (prog : NList) (hf : fragProg c ap prog = true) (s : TokStream)
     (hs : s.toks.map key = progKeys c ap prog) :
     Ev (fun f => parseProgram s f = .ok { program := prog, errors := 0, cont := false }) := by
-  simp only [fragProg, Bool.and_eq_true, Bool.or_eq_true] at hf
-  have hseg : Seg s 0 (progToksAux c ap true prog ++ [eofTok]) :=
+  have hseg : Seg s 0 (stmtsToks c ap false true prog ++ [eofTok]) :=
     seg_of_keys (by rw [hs]; simp [progKeys, progToks])
-  have h := prog_loop (s := s) c ap prog [] true 0 hf.1 hf.2 hseg
+  have h := prog_loop (s := s) prog [] true 0 hf (gp_stmts s c ap prog false true hf) hseg
   refine h.mono (fun f hf' => ?_)
   unfold parseProgram
   rw [init_eq, hf']
